@@ -463,6 +463,8 @@ def fmt_value(x, spec=""):
     spec = unwrap(spec) if spec is not None else ""
     if not symx.is_sym(x) and not getattr(type(x), "__symx_model__", False):
         return format(x, spec)
+    if Interp.cur is not None and Interp.cur.cheap_fmt:
+        return "<symbolic>"
     if isinstance(x, SymStr):
         if spec not in ("", "s"):
             raise Unsupported("format spec %r on symbolic str" % spec)
@@ -517,6 +519,9 @@ def str_format(fmt, *args, **kwargs):
             v = kwargs[name]
             if attr:
                 raise Unsupported("attribute access in format field")
+        if Interp.cur is not None and Interp.cur.cheap_fmt and (symx.is_sym(unwrap(v)) or not symx.deep_concrete(unwrap(v))):
+            out.append("<symbolic>")
+            continue
         if conv == "r":
             v = symx.BUILTIN_MODELS["repr"](v)
         r = fmt_value(v, spec or "")
@@ -549,6 +554,9 @@ def e_JoinedStr2(self, e, env):
             parts.append(v.value)
             continue
         x = unwrap(self.ev(v.value, env))
+        if self.cheap_fmt and (symx.is_sym(x) or not symx.deep_concrete(x)):
+            parts.append("<symbolic>")
+            continue
         if v.conversion == ord("r"):
             x = symx.BUILTIN_MODELS["repr"](x)
         elif v.conversion == ord("s"):
